@@ -169,6 +169,7 @@ struct Ctx {
     uint32_t op_allocs = 0;   // SUT allocations attempted by the last run_sut
     std::string site;         // op name + operand storage classes (filled by the op)
     bool fault_alloc_relevant = false;
+    bool plain_copy = false;              // the operation copies / moves an ST::string as such: it never validates, so it never throws unicode_error
     const void *returned_ref = nullptr;   // the last library call yielded a reference (not a value): address of the object referred to
     // run-level flags used by non-trivial rules
     bool crossed_limit = false, touched_moved_from = false;
